@@ -2,6 +2,7 @@ package checks
 
 import (
 	"fmt"
+	"github.com/buzzfeed/sso/verif/engine/sched"
 	"io"
 	"net/http"
 	"net/url"
@@ -107,6 +108,7 @@ func c15RunProvider(c *fw.Ctx) {
 			return &c15Call{Inside: []*c15Call{leaf(), leaf(), leaf(), leaf(), leaf(), leaf(), {Inside: []*c15Call{leaf()}}}}
 		},
 	}
+	c15RunProviderSlow(c)
 	names := []string{"validation-accepted", "validation-refused", "directory-answers", "directory-fails", "directory-rejects-the-member-key", "directory-listing-answers", "directory-listing-fails",
 		"directory-listing-in-two-pages", "directory-listing-whose-second-page-fails", "back-off-passes", "three-questions-nested", "six-answered-during-a-slow-one-then-two-at-once"}
 	depth := 5
@@ -203,5 +205,91 @@ func c15RunProvider(c *fw.Ctx) {
 				c.Res.Note("%v", hist)
 			}
 		}
+	})
+}
+
+// c15SlowTransport answers every directory request "member", after a scheduling point at which the request is
+// in flight at the directory (so that whatever timers the code under check has armed may fire meanwhile).
+type c15SlowTransport struct {
+	s       *sched.Sched
+	entered int
+	enter   func() int
+	exit    func(tag int)
+}
+
+func (t *c15SlowTransport) RoundTrip(r *http.Request) (*http.Response, error) {
+	tag := t.enter()
+	t.entered++
+	t.s.Point("request-at-the-directory")
+	t.exit(tag)
+	body := `{"isMember":true}`
+	return &http.Response{StatusCode: 200, Status: "200 OK", Proto: "HTTP/1.1", ProtoMajor: 1, ProtoMinor: 1,
+		Header: http.Header{"Content-Type": {"application/json"}}, Body: io.NopCloser(strings.NewReader(body)), ContentLength: int64(len(body)), Request: r}, nil
+}
+
+// c15RunProviderSlow — the provider's breaker with a directory that takes its time: one caller asks four
+// questions one after the other, under the scheduler, and the environment may fire up to three timers while
+// requests are at the directory. The reference breaker is fed with the directory's view (a request from the
+// moment it arrives to the moment it is answered): the breaker's own bookkeeping must agree with it — a call
+// still running at the directory has not failed, and holds its slot.
+func c15RunProviderSlow(c *fw.Ctx) {
+	params := c15Params{N: 2, Trip: 3, Reset: 6}
+	drive(c, "provider/google-directory-slow-answers", 3, func(x *explore.Exec, owned bool) {
+		var problems [][2]string
+		var hist []string
+		var m brkModel
+		var sink []emitted
+		s := sched.Run(x, func(s *sched.Sched) { s.TimerBudget = 3 }, func(s *sched.Sched) {
+			gp, err := authp.NewGoogleProvider(&authp.ProviderData{ClientID: "cid", ClientSecret: "cs", SessionLifetimeTTL: time.Hour}, "", "", "admin@corp.test", credFile)
+			if err != nil {
+				panic(explore.HarnessError{Msg: err.Error()})
+			}
+			tr := &c15SlowTransport{s: s}
+			tr.enter = func() int {
+				tag, okay, why := m.stepBefore(params, true, &sink)
+				if !okay {
+					problems = append(problems, [2]string{"admitted-against-the-reference", "a request reached the directory: " + why})
+				}
+				return tag
+			}
+			tr.exit = func(tag int) {
+				if okay, why := m.stepAfter(params, tag, true, &sink); !okay {
+					problems = append(problems, [2]string{"completion-against-the-reference", why})
+				}
+			}
+			if err := authp.VerifUseRealAdminService(gp, &http.Client{Transport: tr}); err != nil {
+				panic(explore.HarnessError{Msg: err.Error()})
+			}
+			s.Go("caller", func() {
+				for i := 0; i < 4; i++ {
+					before := tr.entered
+					ans, derr := gp.AdminService.CheckMemberships([]string{"group@corp.test"}, "u@corp.test")
+					if tr.entered == before {
+						if _, okay, why := m.stepBefore(params, false, &sink); !okay {
+							problems = append(problems, [2]string{"rejected-against-the-reference", "a directory question was turned away: " + why})
+						}
+					}
+					hist = append(hist, fmt.Sprintf("question %d -> %v err=%v (directory requests so far %d)", i+1, ans, derr, tr.entered))
+				}
+			})
+		})
+		if he, ok := s.Panic.(explore.HarnessError); ok {
+			panic(he)
+		}
+		if !owned {
+			return
+		}
+		if s.Panic != nil {
+			problems = append(problems, [2]string{"panic", fmt.Sprint(s.Panic)})
+		}
+		if s.Deadlock {
+			problems = append(problems, [2]string{"deadlock", fmt.Sprintf("%v never return", s.Blocked)})
+		}
+		c.Res.Transitions += int64(s.Steps)
+		for _, pr := range problems {
+			c.Res.Violate(fw.Violation{Property: "C15", Key: "C15/provider/google-directory-slow-answers/" + pr[0], What: pr[1], Scenario: "provider/google-directory-slow-answers", Choices: x.Choices(),
+				Detail: map[string]interface{}{"history": hist, "schedule": s.Describe()}})
+		}
+		c.Res.Outcome("provider-slow|" + strings.Join(hist, ";"))
 	})
 }
